@@ -427,6 +427,29 @@ def _g2(ctx: Context) -> None:
         ck.check("C13.G2", ok, "entries are keyed by (aid, iid) of the entry", f"{ctx.fkey(f)}:entry-key", f"format_characteristic_list keys entries by {show(key, 80)}", ctx.loc(f, e))
 
 
+def _alts_k1(t):
+    if t[0] == "phi":
+        return [a for x in t[1] for a in _alts_k1(x)]
+    if t[0] == "ifexp":
+        return _alts_k1(t[2]) + _alts_k1(t[3])
+    return [t]
+
+
+def _members_by_value(ctx: Context, qual: str, enum_q: str) -> bool:
+    """module-level NAME = {m.value: m for m in <Enum>}"""
+    mod, _, name = qual.rpartition(".")
+    m = ctx.prog.modules.get(mod)
+    if m is None or name not in m.assigns or len(m.assigns[name]) != 1:
+        return False
+    v = m.assigns[name][0]
+    if not (isinstance(v, ast.DictComp) and len(v.generators) == 1 and not v.generators[0].ifs and isinstance(v.generators[0].target, ast.Name)):
+        return False
+    g = v.generators[0]
+    x = g.target.id
+    return (ctx.prog.resolve_dotted(m, dotted(g.iter) or "") == enum_q and isinstance(v.key, ast.Attribute) and v.key.attr == "value"
+            and isinstance(v.key.value, ast.Name) and v.key.value.id == x and isinstance(v.value, ast.Name) and v.value.id == x)
+
+
 def _k1(ctx: Context) -> None:
     ck = ctx.ck
     f = ctx.func("aiohomekit.protocol.statuscodes.to_status_code")
@@ -437,24 +460,37 @@ def _k1(ctx: Context) -> None:
     forms = [("binop", "Mult", ab, ("const", -1)), ("binop", "Mult", ("const", -1), ab), ("unop", "USub", ab)]
     rets = [n for n in cfg.nodes if n.kind == "return" and n.exprs]
     main = [n for n in rets if not any(fr[0] == "try" and isinstance(fr[2], tuple) for fr in n.frames)]
-    okm = False
-    for n in main:
-        t = strip_sites(T.of(cfg, n, n.exprs[0]))
-        if t[0] == "call" and t[1] == ("glob", "aiohomekit.protocol.statuscodes.HapStatusCode") and len(t[2]) == 1 and t[2][0] in forms:
-            okm = True
-    ck.check("C13.K1", okm, "to_status_code returns HapStatusCode(-abs(code))", f"{ctx.fkey(f)}:normalisation",
-             "to_status_code no longer normalises the sign with -abs(code)", f.loc())
-    hs = [n for n in cfg.nodes if n.kind == "handler" and n.handler_classes and "ValueError" in n.handler_classes]
-    oku = False
-    unknown_const = ctx.prog.const_of("aiohomekit.protocol.statuscodes.HapStatusCode.UNKNOWN")
-    for h in hs:
-        for n in rets:
-            if n.id in cfg.reachable_from(h.id):
-                t = strip_sites(T.of(cfg, n, n.exprs[0]))
-                if t == ("const", unknown_const) or t == ("glob", "aiohomekit.protocol.statuscodes.HapStatusCode.UNKNOWN"):
-                    oku = True
-    ck.check("C13.K1", oku, "an undefined code maps to HapStatusCode.UNKNOWN (ValueError handler)", f"{ctx.fkey(f)}:unknown",
-             "to_status_code no longer maps undefined codes to UNKNOWN", f.loc())
+    HSC = "aiohomekit.protocol.statuscodes.HapStatusCode"
+    unknown_const = ctx.prog.const_of(HSC + ".UNKNOWN")
+    is_unknown = lambda t_: t_ == ("const", unknown_const) or t_ == ("glob", HSC + ".UNKNOWN")  # noqa: E731
+    ctor_args, table_args = [], []
+    for n in rets:
+        for t in _alts_k1(strip_sites(T.of(cfg, n, n.exprs[0]))):
+            if t[0] == "call" and t[1] == ("glob", HSC) and len(t[2]) == 1:
+                ctor_args.append((n, t[2][0]))
+            # the same look-up through a table of the enum's members by value: TABLE.get(-abs(code)) / TABLE[..]
+            if t[0] == "call" and t[1][0] == "attr" and t[1][2] == "get" and t[1][1][0] == "glob" and len(t[2]) >= 1 and _members_by_value(ctx, t[1][1][1], HSC):
+                table_args.append((n, t[2][0], t[2][1] if len(t[2]) > 1 else ("const", None)))
+    if ctor_args:
+        okm = all(a_ in forms for _n, a_ in ctor_args)
+        ck.check("C13.K1", okm, "to_status_code returns HapStatusCode(-abs(code))", f"{ctx.fkey(f)}:normalisation",
+                 "to_status_code no longer normalises the sign with -abs(code)", f.loc())
+        hs = [n for n in cfg.nodes if n.kind == "handler" and n.handler_classes and "ValueError" in n.handler_classes]
+        oku = any(is_unknown(strip_sites(T.of(cfg, n, n.exprs[0]))) for h in hs for n in rets if n.id in cfg.reachable_from(h.id))
+        ck.check("C13.K1", oku, "an undefined code maps to HapStatusCode.UNKNOWN (ValueError handler)", f"{ctx.fkey(f)}:unknown",
+                 "to_status_code no longer maps undefined codes to UNKNOWN", f.loc())
+    elif table_args:
+        okm = all(a_ in forms for _n, a_, _d in table_args)
+        ck.check("C13.K1", okm, "to_status_code looks -abs(code) up among the members of HapStatusCode by value", f"{ctx.fkey(f)}:normalisation",
+                 "to_status_code no longer normalises the sign with -abs(code)", f.loc())
+        # a value that is not in the table: the default of the look-up, or the return behind `is None`
+        oku = all(is_unknown(d_) for _n, _a, d_ in table_args if d_ != ("const", None)) and (
+            any(d_ != ("const", None) for _n, _a, d_ in table_args) or any(is_unknown(strip_sites(T.of(cfg, n, n.exprs[0]))) for n in rets))
+        none_leak = [n for n in rets if ("const", None) in _alts_k1(strip_sites(T.of(cfg, n, n.exprs[0])))]
+        ck.check("C13.K1", oku and not none_leak, "an undefined code maps to HapStatusCode.UNKNOWN (not found in the table)", f"{ctx.fkey(f)}:unknown",
+                 "to_status_code no longer maps undefined codes to UNKNOWN", f.loc())
+    else:
+        ck.unknown("C13.K1", "to_status_code: neither HapStatusCode(<code>) nor a look-up in a table of its members was found: not decided", f.loc())
     ck.check("C13.K1", not [e for e in ctx.flow.esc(f.qualname)], "to_status_code raises nothing", f"{ctx.fkey(f)}:escapes",
              f"to_status_code lets {sorted(ctx.flow.esc(f.qualname))} escape", f.loc())
 
